@@ -28,6 +28,14 @@ NOTES = ['every (N, r) with 1 <= r <= N <= 8 (thorough: <= 12), every T in 1..4,
          'twins.RULE_DRESSINGS / PRED_DRESSINGS (8 cases each in quick: Script / LinCT / Lin / Aff, r = 1 and larger, '
          'fixed and callable, H in 1..3, one scribbling, one float-valued); the dressing is the outermost wrapper, the '
          'exact log sits inside; the model ignores the dressing (same behaviour)',
+         'stream reentrant/<same|other_r|same_family>/...: the rule is twins.Reentrant(inner, nested), nested = a complete '
+         'cpl.evolve on a ring of the same N and dtype (same r / another r / nested rule of the inner rule\'s family) with '
+         'memoize False / True / recursive; model side = inner rule; arrays and logs compared in Coq',
+         'stream callform/...: evolve called through twins.invoke all-positional, all-keyword and mixed, r and memoize '
+         'given or defaulted; stream retview/...: twins.ProjView1 (0-d view of the argument), model = one-hot Lin',
+         'stream huge/... (N = 3001, r = 1500 and N = 2 900 001, r = 1, int64, T = 2; neighbourhood tables above 64 MiB) is '
+         'ORACLE-DECIDED (Coq term CNoModel): the log must be c = 0..N-1 ascending once per step and the row the closed '
+         'form (c*7 + previous state) % 11',
          'stream scribble: the rule overwrites its neighbourhood argument in place after computing its value '
          '(twins.Scribble); the model passes values, so the model-side rule is the underlying one']
 ASSUMPTIONS = ['rule results are representable in the automaton dtype (out-of-range results are outside the property)',
@@ -195,9 +203,72 @@ def _float_cases(rng, tier):
                                    'memoize': memo, 'frule': {'fam': fam}}
 
 
+class IndexRule:
+    """cheap index-dependent rule for the huge rings: (c*7 + n[r]) % 11, and it records c"""
+    def __init__(self, r):
+        self.r, self.cells, self.steps = r, [], []
+
+    def __call__(self, nbhd_arg, cell_arg, step_arg):
+        self.cells.append(cell_arg)
+        self.steps.append(step_arg)
+        return (cell_arg * 7 + int(nbhd_arg[self.r])) % 11
+
+
+def _run_huge(c):
+    """the observation is a summary (the row and the log have up to 2.9 million entries): where the log departs from
+    0..N-1 ascending once per step, and where the new row departs from the closed form (c*7 + prev[c]) % 11"""
+    import cellpylib as cpl
+    N, r, T = c['N'], c['r'], c['T']
+    init = np.random.RandomState(c['hist_seed']).randint(0, 11, size=N).astype(c['dtype'])
+    ca = np.array([init])
+    rule = IndexRule(r)
+    ts = (lambda ca_, t: t < T) if c['dyn'] else T
+    res = call_impl(lambda: cpl.evolve(ca, timesteps=ts, apply_rule=rule, r=r, memoize=False), timeout=120)
+    if res[0] != 'ok':
+        return [res[0], res[1], {'geterr': dict(np.geterr())}]
+    out = np.asarray(res[1])
+    o = {'shape': [int(x) for x in out.shape], 'dtype': str(out.dtype), 'geterr': dict(np.geterr()),
+         'calls': len(rule.cells), 'bad_call': None, 'bad_cell': None}
+    if out.shape == (T, N):
+        want_c = np.tile(np.arange(N), T - 1)
+        want_t = np.repeat(np.arange(1, T), N)
+        if len(rule.cells) == len(want_c):
+            got_c, got_t = np.asarray(rule.cells), np.asarray(rule.steps)
+            bad = np.nonzero((got_c != want_c) | (got_t != want_t))[0]
+            if len(bad):
+                i = int(bad[0])
+                o['bad_call'] = [i, int(got_c[i]), int(got_t[i]), int(want_c[i]), int(want_t[i])]
+        for t in range(1, T):
+            bad = np.nonzero(out[t] != (np.arange(N) * 7 + out[t - 1]) % 11)[0]
+            if len(bad) and o['bad_cell'] is None:
+                j = int(bad[0])
+                o['bad_cell'] = [t, j, int(out[t][j]), int((j * 7 + int(out[t - 1][j])) % 11)]
+        o['prefix_ok'] = bool(np.array_equal(out[0], init))
+    return ['ok', o]
+
+
+def _oracle_huge(c, obs):
+    if obs[0] != 'ok':
+        return 'evolve raised %s on a ring of %d cells, r = %d' % (obs[1], c['N'], c['r'])
+    o = obs[1]
+    if o['dtype'] != c['dtype'] or o['shape'] != [c['T'], c['N']]:
+        return 'result dtype / shape %s %s, expected %s %s' % (o['dtype'], o['shape'], c['dtype'], [c['T'], c['N']])
+    if o['calls'] != c['N'] * (c['T'] - 1):
+        return 'the rule was consulted %d times, expected N*(T-1) = %d' % (o['calls'], c['N'] * (c['T'] - 1))
+    if o['bad_call']:
+        return 'call %d received (c, t) = (%d, %d), expected (%d, %d): cells ascending, each once per step' % tuple(o['bad_call'])
+    if o['bad_cell']:
+        return 'row %d cell %d is %d, the rule value (c*7 + previous state) %% 11 is %d' % tuple(o['bad_cell'])
+    if not o.get('prefix_ok'):
+        return 'the result does not start with the given row'
+    return None
+
+
 def _run_nomodel(c):
     import warnings
     import cellpylib as cpl
+    if c.get('huge'):
+        return _run_huge(c)
     ca = np.array(c['hist'], dtype=c['dtype'])
     rule = FloatRule(c['frule'], c['r'])
     T = c['T']
@@ -214,6 +285,8 @@ def _run_nomodel(c):
 
 
 def _oracle_nomodel(c, obs):
+    if c.get('huge'):
+        return _oracle_huge(c, obs)
     if obs[0] != 'ok':
         return 'evolve raised %s; the library should store inf / 0.0 / -0.0 in the automaton dtype' % obs[1]
     o = obs[1]
@@ -384,6 +457,57 @@ def generate(rng, tier):
                 if dyn:
                     c['pdress'] = twins.PRED_DRESSINGS[(di + k // 2) % len(twins.PRED_DRESSINGS)]
                 yield c
+    # (9) re-entrancy: the rule itself runs a complete nested cpl.evolve (same N, r, dtype; same N other r; nested rule of
+    #     the same family) before and after computing its value; the nested call must not disturb the outer evolution
+    reps = 1 if tier == 'quick' else 6
+    for _ in range(reps):
+        for mode in ('same', 'other_r', 'same_family'):
+            for memo2 in ('False', 'True', 'recursive'):
+                for dyn in (False, True):
+                    for fam in ('script', 'linct'):
+                        N = rng.randint(2, 7)
+                        r = rng.randint(1, N)
+                        T = rng.randint(2, 3)
+                        dtype = rng.choice(DTYPES)
+                        c = _case(rng, 'reentrant/%s/nested_memoize=%s/%s/%s' % (mode, memo2, fam, 'callable' if dyn else 'fixed'),
+                                  N, r, T, rng.randint(1, 2), dtype, fam, dyn)
+                        r2 = r if mode != 'other_r' else rng.choice([x for x in range(1, N + 1) if x != r] or [r])
+                        T2 = rng.randint(2, 3)
+                        fam2 = fam if mode == 'same_family' else 'lin'
+                        c['reentrant'] = {'mode': mode, 'r2': r2, 'T2': T2,
+                                          'memo2': memo2 if fam2 == 'lin' else 'False',
+                                          'rule2': _rule(rng, fam2, N, r2, T2, dtype), 'hist2': _hist(rng, N, 1, dtype)}
+                        yield c
+    # (10) call forms: the same evolve call written all-positional, all-keyword and mixed; r / memoize given or defaulted
+    for _ in range(2 * reps):
+        for given in (['r', 'memoize'], ['r'], ['memoize'], []):
+            names = ['cellular_automaton', 'timesteps', 'apply_rule'] + given
+            top = len(names) if given != ['memoize'] else 3      # memoize without r can only be a keyword
+            for npos in range(top + 1):
+                N = rng.randint(1, 7)
+                r = rng.randint(1, N) if 'r' in given else 1
+                fam = rng.choice(FAMS)
+                dyn = rng.random() < 0.5
+                c = _case(rng, 'callform/given=%s/npos=%d/%s' % ('+'.join(given) or 'none', npos, 'callable' if dyn else 'fixed'),
+                          N, r, rng.randint(2, 4), rng.randint(1, 2), rng.choice(DTYPES), fam, dyn)
+                c['callform'] = {'given': given, 'npos': npos}
+                yield c
+    # (11) a rule that returns a zero-dimensional VIEW of its argument (twins.ProjView1); model = one-hot Lin
+    for k in range(40 * reps):
+        N = rng.randint(1, 8)
+        r = rng.randint(1, N)
+        dtype = DTYPES[k % 4]
+        dyn = (k // 4) % 2 == 1
+        pos = rng.randrange(2 * r + 1)
+        hist = [[rng.randint(0, 9) for _ in range(N)] for _ in range(rng.randint(1, 2))]
+        yield {'kind': 'retview/%s/%s' % (dtype, 'callable' if dyn else 'fixed'), 'dyn': dyn, 'scale': 1, 'dtype': dtype,
+               'hist': hist, 'T': rng.randint(2, 4), 'r': r, 'retview': pos, 'log': True,
+               'rule': {'fam': 'lin', 'ws': [1 if i == pos else 0 for i in range(2 * r + 1)], 'm': 10}}
+    # (12) oracle-only: rings whose neighbourhood table exceeds 64 MiB (3001 x 3001 x 8 bytes; 2 900 001 x 3 x 8 bytes)
+    for N, r in ((3001, 1500), (2900001, 1)):
+        for dyn in (False, True):
+            yield {'kind': 'huge/N=%d/r=%d/%s' % (N, r, 'callable' if dyn else 'fixed'), 'nomodel': True, 'huge': True,
+                   'dtype': 'int64', 'N': N, 'r': r, 'T': 2, 'dyn': dyn, 'hist_seed': rng.randrange(2 ** 31)}
     # (7) oracle-only: float overflow / underflow and signed zeros (outside the Z-valued model)
     for c in _float_cases(rng, tier):
         yield c
@@ -427,16 +551,30 @@ def run_impl(c):
     if c.get('nomodel'):
         return _run_nomodel(c)
     ca = np.array(c['hist'], dtype=c['dtype'])
-    base = make_rule(c['rule'])
+    base = twins.ProjView1(c['retview']) if c.get('retview') is not None else make_rule(c['rule'])
     if c['scale'] != 1:
         base = Scaled(base, c['scale'])
     if c.get('scribble'):
         base = Scribble(base)
+    if c.get('reentrant'):
+        re = c['reentrant']
+        memo2 = {'False': False, 'True': True, 'recursive': 'recursive'}[re['memo2']]
+
+        def nested():       # a complete library call of its own: fresh array, fresh rule object
+            cpl.evolve(np.array(re['hist2'], dtype=c['dtype']), timesteps=re['T2'], apply_rule=make_rule(re['rule2']),
+                       r=re['r2'], memoize=memo2)
+        base = twins.Reentrant(base, nested)
     rule = StrictLogged1(base)
     handed = twins.dress(rule, c.get('dress'))      # outermost: the library sees the dressed object, the log is inside
     T = c['T']
     ts = twins.dress_pred(lambda ca_, t: t < T, c.get('pdress')) if c['dyn'] else T
-    res = call_impl(lambda: cpl.evolve(ca, timesteps=ts, apply_rule=handed, r=c['r'], memoize=False))
+    if c.get('callform'):
+        cf = c['callform']
+        names = ['cellular_automaton', 'timesteps', 'apply_rule'] + cf['given']
+        values = [ca, ts, handed] + [{'r': c['r'], 'memoize': False}[g] for g in cf['given']]
+        res = call_impl(lambda: twins.invoke(cpl.evolve, names, values, cf['npos']))
+    else:
+        res = call_impl(lambda: cpl.evolve(ca, timesteps=ts, apply_rule=handed, r=c['r'], memoize=False))
     if res[0] != 'ok':
         return list(res) + [{'geterr': dict(np.geterr())}]
     out = np.asarray(res[1])
@@ -577,7 +715,13 @@ def shrink(c):
     if len(hist) > 1:
         yield rebuild(hist[-1:], T, r)
     if c['dyn']:
-        yield dict(c, dyn=False)
+        yield dict(c, dyn=False, pdress=None)
+    if c.get('retview') is not None:
+        return          # the view index and the one-hot weights of the model go together: no structural shrinking
+    if c.get('reentrant'):
+        yield dict(c, reentrant=None)
+    if c.get('callform'):
+        yield dict(c, callform=None)
     if c.get('scribble'):
         yield dict(c, scribble=False)
     if N > 1:
